@@ -6,4 +6,4 @@ wt=$(mktemp -d /tmp/trywt-XXXXXX); rmdir $wt
 git -C /repo worktree add -q --detach $wt HEAD || exit 2
 trap 'git -C /repo worktree remove --force $wt >/dev/null 2>&1' EXIT
 git -C $wt apply $patch 2>/dev/null || git -C $wt apply --3way $patch >/dev/null 2>&1 || { echo "PATCH-DOES-NOT-APPLY"; exit 0; }
-for p in "$@"; do mkdir -p $wt/_verif/$p; cp /verif/known_findings.txt $wt/_verif/$p/; /verif/bin/jscheck -prop $p -tier quick -repo $wt -verif $wt/_verif/$p 2>&1 | grep -v "^KNOWN\|^VIOLATION" | cut -c1-${W:-400}; done
+for p in "$@"; do mkdir -p $wt/_verif/$p; cp /verif/known_findings.txt $wt/_verif/$p/; ${JSCHECK:-/verif/bin/jscheck} -prop $p -tier quick -repo $wt -verif $wt/_verif/$p 2>&1 | grep -v "^KNOWN\|^VIOLATION" | cut -c1-${W:-400}; done
